@@ -91,7 +91,8 @@ def convert_output_data(obj, limit_func, engine, rec=None):
             result[rec(key, limit_func, engine, rec)] = rec(
                 value, limit_func, engine, rec)
         return result
-    elif isinstance(obj, SetType):
+    elif isinstance(obj, SetType) and not isinstance(
+            obj, collections.abc.MappingView):
         set_type = list if convert_sets_to_lists(engine) else set
         return set_type(rec(t, limit_func, engine, rec)
                         for t in limit_func(obj))
